@@ -59,7 +59,7 @@ func runMatch(_ *testing.T, c MatchCase) (*h.Violation, h.Info) {
 var matchCampaign = &h.Campaign[MatchCase]{
 	Prop: "C07", Sub: "match",
 	Rule: "rapid: patterns = random-Unicode literal pieces (regex metacharacters, newlines, combining marks, 4-byte runes) joined by '*'; names constructed to match and then perturbed; non-trivial = pattern has both '*' and a literal piece, or pattern/name contains newline, '/', or a regexp metacharacter; distinct by (pattern,name)",
-	Quick: 30000, Thorough: 1500000,
+	Quick: 30000, Thorough: 6000000,
 	Gen: genMatchCase,
 	Run: runMatch,
 }
@@ -316,7 +316,7 @@ func genRule(rt *rapid.T) RuleM {
 var rulesCampaign = &h.Campaign[RulesCase]{
 	Prop: "C07", Sub: "rules",
 	Rule: "rapid: 0-4 rules, each a multiset of actions (the five real ones plus near-misses) and 0-3 patterns from exact names and wildcard shapes; queried (action,name) from pools; metamorphic partner = same set plus one more rule; non-trivial = >=2 rules and (the query is allowed, or action and pattern are satisfied only by different rules); distinct by scenario",
-	Quick: 20000, Thorough: 600000,
+	Quick: 20000, Thorough: 3000000,
 	Gen: func(rt *rapid.T) RulesCase {
 		return RulesCase{
 			Rules:  rapid.SliceOfN(rapid.Custom(genRule), 0, 4).Draw(rt, "rules"),
